@@ -9,6 +9,7 @@ pub mod c05b;
 pub mod c06;
 pub mod c07;
 pub mod c08;
+pub mod c10;
 pub mod c11;
 pub mod c12;
 pub mod c13;
@@ -37,6 +38,7 @@ pub fn lookup(id: &str) -> Option<Entry> {
         "C06" => Entry { level: "exploration", run: c06::run, replay: c06::replay },
         "C07" => Entry { level: "exploration", run: c07::run, replay: c07::replay },
         "C08" => Entry { level: "exploration", run: c08::run, replay: c08::replay },
+        "C10" => Entry { level: "exploration", run: c10::run, replay: c10::replay },
         "C11" => Entry { level: "exploration", run: c11::run, replay: c11::replay },
         "C12" => Entry { level: "exploration", run: c12::run, replay: c12::replay },
         "C13" => Entry { level: "model_checking", run: c13::run, replay: c13::replay },
